@@ -386,6 +386,41 @@ pub fn generate(seed: u64, tier: &str, sink: &mut Sink) {
             emit(sink, vec!["kind=declared-size".into(), "framing=length".into()], &case, &out, o);
         }
     }
+    // a coded body whose FIRST byte is all that has arrived (or all there is): every value of that byte, under
+    // every framing — whatever looks at the start of the stream to tell formats apart meets a one-byte buffer
+    // (seed C05-seed12: `head[1]` behind a check of `head.first()`)
+    for (ci, coding) in [&b"Content-Encoding: deflate\r\n"[..], b"Content-Encoding: gzip\r\n", b"Transfer-Encoding: deflate, chunked\r\n", b"Content-Encoding: x-gzip, deflate\r\n"].iter().enumerate() {
+        for b in 0..=255u8 {
+            for framing in 0..3 {
+                if ci == 2 && framing != 1 {
+                    continue;
+                }
+                let mut w = b"HTTP/1.1 200 OK\r\n".to_vec();
+                w.extend_from_slice(coding);
+                match framing {
+                    0 => w.extend_from_slice(b"Content-Length: 1\r\n\r\n"),
+                    1 => {
+                        if ci != 2 {
+                            w.extend_from_slice(b"Transfer-Encoding: chunked\r\n");
+                        }
+                        w.extend_from_slice(b"\r\n1\r\n");
+                    }
+                    _ => w.extend_from_slice(b"\r\n"),
+                }
+                let head = w.clone();
+                let mut rest = vec![b];
+                if framing == 1 {
+                    rest.extend_from_slice(b"\r\n3\r\nabc\r\n0\r\n\r\n");
+                }
+                // the first byte in a segment of its own: alone in the buffer when the decoder is set up
+                let segs = vec![Seg::Data(head), Seg::Data(rest[..1].to_vec()), Seg::Data(rest[1..].to_vec())].into_iter().filter(|s| !matches!(s, Seg::Data(d) if d.is_empty())).collect();
+                let case = RespCase { method: "GET".into(), max_headers: 100, segs, reads: if b % 2 == 0 { Reads::Drain(8192) } else { Reads::Sizes(vec![1, 1 << 16, 1 << 16, 7]) } };
+                let out = run_resp(&case);
+                let o = base_oracle(&case, &out, "coded-first-byte");
+                emit(sink, vec!["kind=coded-first-byte".into(), format!("coding={}", ci), format!("framing={}", framing)], &case, &out, o);
+            }
+        }
+    }
     // calls of OTHER threads while a hostile peer holds one call (real sockets)
     crate::p_c05b::generate(sink);
 }
